@@ -125,6 +125,15 @@ def run(tier, seed):
                 else: dtend = shift_inst(rrgen.inst(ds), 1)
         last = occ[-1]; hz = last[:3]
         exl = split_lines(rnd, ex); rdl = split_lines(rnd, rd)
+        if not timed and rnd.random() < 0.4:
+            # an all-day event whose exception (and addition) lists hold date-times next to dates of the same days: a date-time names
+            # no all-day occurrence, the date does - whatever order the lines come in
+            days = [x for x in ex if len(x) == 3] + rnd.sample(occ, min(len(occ), 2))
+            xt = [tuple(d[:3]) + rnd.choice([(12, 0, 0), (0, 0, 0), (23, 59, 59)]) for d in rnd.sample(days, min(len(days), rnd.randint(1, 4)))]
+            ex = ex + xt; exl = exl + split_lines(rnd, xt); rnd.shuffle(exl)
+            if rd and rnd.random() < 0.5:
+                rt_ = [tuple(d[:3]) + (12, 0, 0) for d in rnd.sample(rd, 1)]
+                rd = rd + rt_; rdl = rdl + [rt_]; rnd.shuffle(rdl)
         ics = rrgen.event_ics('a%d' % k, ds, [rrgen.rule_text(r) for r in rules], rdates=rdl, exdates=exl, exrules=[rrgen.rule_text(r) for r in xrules], dur=dur, dtend=dtend)
         if timed and 1905 < ds[0] < 2030 and rnd.random() < 0.6:
             ics = zone_some_lines(rnd, ics)
